@@ -6,6 +6,7 @@ import (
 	"fmt"
 	"io"
 	"sync"
+	"time"
 
 	"google.golang.org/grpc"
 	"google.golang.org/grpc/metadata"
@@ -279,6 +280,9 @@ func runHandlerProg(ss grpc.ServerStream, tag string, ops []Op, rec *SideRec, ga
 			rec.add(Ev{Op: "ctxDone", Err: ss.Context().Err()})
 		case "gate":
 			gates.Wait(op.Gate)
+		case "sleepReal":
+			// a handler that is slow, not dead: N milliseconds of real time
+			time.Sleep(time.Duration(op.N) * time.Millisecond)
 		case "spawnRecvAll":
 			// a full-duplex handler: a second goroutine receives until the end of the caller's
 			// messages while this one goes on (gRPC allows one sender and one receiver at a time)
